@@ -20,7 +20,8 @@ def capw(size):
 # concrete size classes: empty, one word, two words, sub-page, page-1 word, exact page, page+1 word,
 # two pages, three pages + one word; and sizes that are not multiples of 8
 SIZES = [(0, 'quick'), (8, 'quick'), (16, 'quick'), (4088, 'quick'), (4096, 'quick'), (4104, 'quick'), (8192, 'quick'), (12296, 'quick'),
-         (1, 'quick'), (4100, 'quick'), (12295, 'thorough'), (2048, 'thorough'), (12288, 'thorough')]
+         (1, 'quick'), (4100, 'quick'), (12295, 'quick'), (2048, 'quick'),
+         (12288, 'thorough'), (24, 'thorough'), (4080, 'thorough'), (8184, 'thorough'), (8200, 'thorough'), (12280, 'thorough'), (4095, 'thorough')]
 for size, tier in SIZES:
     w = capw(size)
     inst(P, 'c18_life_s%d' % size, 'c18::lifecycle(%d, 2)' % size, tier=tier, unwind=10, stubs=['mmap_fs'], models=MODEL,
@@ -29,18 +30,20 @@ for size, tier in SIZES:
          shape={'size': size, 'cycles': 2})
 
 # every size in a range, symbolic (not only multiples of 8)
+inst(P, 'c18_life_sym_4080_4112', 'c18::lifecycle_sym(4080, 4112, 2, true)', tier='thorough', unwind=10, stubs=['mmap_fs'], models=MODEL, cap=900, cap_thorough=1800, mem=8, weight=3,
+     desc='every file size 4080..=4112 bytes (symbolic, around the page boundary) with content: 2 map/drop cycles', shape={'size': '4080..=4112', 'cycles': 2})
 inst(P, 'c18_life_sym_0_72', 'c18::lifecycle_sym(0, 72, 2, true)', unwind=10, stubs=['mmap_fs'], models=MODEL, cap=600, mem=8, weight=2,
      desc='every file size 0..=72 bytes (symbolic): 2 map/drop cycles, both modes, missing file, OS refusal', shape={'size': '0..=72', 'cycles': 2})
 inst(P, 'c18_life_sym_pages', 'c18::lifecycle_sym(0, 12296, 1, false)', unwind=10, stubs=['mmap_fs'], models=MODEL, cap=900, mem=12, weight=9,
-     desc='every file size 0..=3 pages+8 bytes (symbolic): map/drop, both modes, missing file, OS refusal', shape={'size': '0..=12296', 'cycles': 1})
-inst(P, 'c18_life_sym_pages_c2', 'c18::lifecycle_sym(0, 12296, 2, false)', tier='thorough', unwind=10, stubs=['mmap_fs'], models=MODEL, cap=900, cap_thorough=3600, mem=16, weight=9,
-     desc='every file size 0..=3 pages+8 bytes (symbolic): 2 map/drop cycles', shape={'size': '0..=12296', 'cycles': 2})
+     desc='every file size 0..=3 pages+8 bytes (symbolic): map/drop, both modes, missing file, OS refusal (sizes, lengths, OS requests, page and descriptor accounting; no content reads)', shape={'size': '0..=12296', 'cycles': 1})
+inst(P, 'c18_life_sym_pages_c2', 'c18::lifecycle_sym(0, 12296, 2, false)', tier='quick', unwind=10, stubs=['mmap_fs'], models=MODEL, cap=900, cap_thorough=3600, mem=16, weight=9,
+     desc='every file size 0..=3 pages+8 bytes (symbolic): 2 map/drop cycles (no content reads)', shape={'size': '0..=12296', 'cycles': 2})
 
 extra(P, assumptions=[
     'OS model (models/mmap_model.c, follows mmap(2)/munmap(2)): mmap with length 0 or refused by the OS returns MAP_FAILED (never NULL); success returns the page-aligned pages of the file itself (MAP_SHARED: the mapping is the file, bytes past the end of the file in the last page read as zero) and maps ceil(len/4096) pages; munmap(p, n) with n == 0 or unaligned p fails and releases nothing, otherwise releases ceil(n/4096) pages from p; close(fd) closes the descriptor; page size 4096',
     'std::fs stubs (harness/src/stubs_mmap.rs): OpenOptions::read/write record the flag; OpenOptions::open fails iff the harness chose "file cannot be opened in this mode" (covers missing file and no write permission), otherwise returns a File owning descriptor 3; File::metadata always succeeds on an open file; Metadata::len returns the model file length',
-    'file content = zero except the first word, the last word and one word at an arbitrary index, which are arbitrary; reads and writes at symbolic indices',
-    'native replay runs the same template on a real temp file with the real mmap and observes /proc/self/maps, /proc/self/fd and the file bytes; counterexamples with "OS refuses the mapping" are not replayable natively',
+    'file content = zero except the first word, the last word and one word at a position picked from {first, last, middle, third, word 511, word 512}, which are arbitrary; reads at a fully symbolic index, the store through as_mut_slice() at a picked position with an arbitrary value',
+    'native replay runs the same template on a real temp file with the real mmap and observes /proc/self/maps, /proc/self/fd and the file bytes; "the OS refuses the mapping" is reproduced natively by lowering RLIMIT_AS to the current address-space size around MemoryMap::new (mmap fails with ENOMEM)',
     'Linux x86_64 values PROT_READ=1, PROT_WRITE=2, MAP_SHARED=1',
 ], coverage={'outside_bounds': [
     'files larger than 3 pages + 8 bytes', 'more than 2 map/drop cycles (the model state after a complete cycle equals the initial state, see check_released)',
